@@ -49,12 +49,17 @@ def instances(tier):
     for L in ([0, 2, 6] if tier == "quick" else [0, 1, 2, 3, 6, 12, 20]):
         out.append({"kind": "validate", "len": L})
     out.append({"kind": "validate_badlen"})
+    for L in ([2] if tier == "quick" else [0, 2, 6]):
+        out.append({"kind": "validate_twice", "len": L})
     for g in (4, 5):
         for n in _rx_payloads(tier):
             for where in ("addr", "data", "crc", "type", "len"):
                 if where == "data" and n == 0:
                     continue
                 out.append({"kind": "rx", "gen": g, "payload": n, "where": where})
+        for where in ("addr", "data", "crc"):
+            # history: the intact frame is received first, its damaged copy right behind it
+            out.append({"kind": "rx", "gen": g, "payload": 2, "where": where, "after_good": True})
     return out
 
 
@@ -95,6 +100,19 @@ def run(ctx, p):
         ref_ok = bytes_eq(chk, refcrc.check_bytes(buf))
         ctx.observe("valid", r)
         ctx.check(r == ref_ok, "validate.iff_reference")
+    elif kind == "validate_twice":
+        # the verdict on a frame does not depend on the frames validated before it (one calculator per registry, for good)
+        calc = _crc_mod().Crc16Modbus()
+        buf1 = [ctx.byte(f"a{i}") for i in range(p["len"])]
+        buf2 = [ctx.byte(f"b{i}") for i in range(p["len"])]
+        chk1 = [ctx.byte("j0"), ctx.byte("j1")]
+        chk2 = [ctx.byte("k0"), ctx.byte("k1")]
+        w = (lambda x: SymBytes(x) if ctx.symbolic else bytes(x))
+        r1 = calc.validate(w(buf1), w(chk1))
+        r2 = calc.validate(w(buf2), w(chk2))
+        ctx.observe("valid", [r1, r2])
+        ctx.check(r1 == bytes_eq(chk1, refcrc.check_bytes(buf1)), "validate.iff_reference")
+        ctx.check(r2 == bytes_eq(chk2, refcrc.check_bytes(buf2)), "validate.iff_reference", detail="second validation on the same calculator")
     elif kind == "validate_badlen":
         calc = _crc_mod().Crc16Modbus()
         n = ctx.choice("n", 4)
@@ -157,6 +175,8 @@ def _run_rx(ctx, p):
         with Rig(ctx, g) as rig:
             def on_accept(conn):
                 if conn.index == 0:
+                    if p.get("after_good"):
+                        conn.send(SymBytes(list(good)) if ctx.symbolic else bytes(good))
                     conn.send(SymBytes(bad) if ctx.symbolic else bytes(bad))
                 elif conn.index == 1:
                     conn.send(bytes(probe))
@@ -166,6 +186,10 @@ def _run_rx(ctx, p):
             # what the reference receiver does with the damaged stream
             rl = ((bad[cs + 4] << 8) | bad[cs + 5])
             got_first = [m for (_, h, m) in rig.received if getattr(m, "unsupported_id", None) != 0x78]
+            if p.get("after_good"):
+                ctx.check(len(got_first) >= 1, "rx.delivered_implies_reference_accepts", detail="the intact frame was not delivered")
+                got_first = got_first[1:]
+                spy.calls[:1] = []
             got_probe = [m for (_, h, m) in rig.received if getattr(m, "unsupported_id", None) == 0x78]
             ctx.observe("delivered", len(got_first))
             ctx.observe("probe", len(got_probe))
